@@ -50,6 +50,8 @@ def make_sets(inst, c):
 def build(inst):
     """Returns dict with: resid (pure residual function), kwargs (for dfols.solve, without objfun), lo, hi (user's bound
     arrays or None), sets, h, A, b, c, n, m."""
+    if inst.get("explicit"):
+        return build_explicit(inst)
     n, m = int(inst["n"]), int(inst["m"])
     rng = _rng(inst, 7)
     A = rng.normal(size=(m, n))
@@ -230,3 +232,61 @@ def build(inst):
     hval = (lambda x: 0.0) if h is None else (lambda x: float(h(x, *kw.get("argsh", ()))))
     return dict(resid=resid, kwargs=kw, x0=x0, lo=lo, hi=hi, sets=sets, hval=hval, A=A, b=b, c=c, n=n, m=m, lam=lam, reg=reg,
                 noise=float(inst.get("noise_sd", 0.0)))
+
+
+def build_explicit(inst):
+    """instances whose data are given explicitly (constructed optima, C05 / C06): r(x) = A x - b"""
+    E = inst["explicit"]
+    A = np.array(E["A"], dtype=float)
+    b = np.array(E["b"], dtype=float)
+    m, n = A.shape
+    lo = np.array(E["lo"], dtype=float) if E.get("lo") is not None else None
+    hi = np.array(E["hi"], dtype=float) if E.get("hi") is not None else None
+    x0 = np.array(E["x0"], dtype=float)
+    kw = {}
+    for k in ("rhobeg", "rhoend", "maxfun"):
+        if k in inst and not (inst.get("use_default_budget") and k in ("maxfun", "rhoend")):
+            kw[k] = inst[k]
+    if lo is not None:
+        kw["bounds"] = (lo.copy(), hi.copy())
+    if inst.get("scaling"):
+        kw["scaling_within_bounds"] = True
+    if inst.get("npt"):
+        kw["npt"] = int(inst["npt"])
+    if inst.get("user_params"):
+        kw["user_params"] = dict(inst["user_params"])
+    lam = float(inst.get("lam", 0.0))
+    reg = inst.get("reg", "none")
+    h = None
+    seen_args = dict(h=[], prox=[])
+    if reg == "l1":
+        if inst.get("args"):
+            def h(x, lam_, tag):
+                seen_args["h"].append((lam_, tag))
+                return lam_ * float(np.sum(np.abs(x)))
+
+            def prox(x, u, lam_, tag):
+                seen_args["prox"].append((lam_, tag))
+                return soft(x, lam_ * u)
+            kw.update(argsh=(lam, "tag-h"), argsprox=(lam, "tag-prox"))
+        else:
+            h = lambda x: lam * float(np.sum(np.abs(x)))
+            prox = lambda x, u: soft(x, lam * u)
+        kw.update(h=h, lh=lam * math.sqrt(n), prox_uh=prox)
+    elif reg == "l2":
+        def proxl2(x, u, *a):
+            if a:
+                seen_args["prox"].append(tuple(a))
+            nx = np.linalg.norm(x)
+            return x * max(0.0, 1.0 - lam * u / nx) if nx > 0 else x
+        if inst.get("args"):
+            def h(x, lam_, tag):
+                seen_args["h"].append((lam_, tag))
+                return lam_ * float(np.linalg.norm(x))
+            kw.update(argsh=(lam, "tag-h"), argsprox=(lam, "tag-prox"))
+        else:
+            h = lambda x: lam * float(np.linalg.norm(x))
+        kw.update(h=h, lh=lam, prox_uh=proxl2)
+    hval = (lambda x: 0.0) if h is None else ((lambda x: lam * float(np.sum(np.abs(x)))) if reg == "l1" else (lambda x: lam * float(np.linalg.norm(x))))
+    return dict(resid=(lambda x: A @ x - b), kwargs=kw, x0=x0, lo=lo, hi=hi, sets=[], hval=hval, A=A, b=b, c=np.zeros(n), n=n, m=m, lam=lam, reg=reg,
+                noise=0.0, seen_args=seen_args)
